@@ -228,11 +228,13 @@ func cmdKvRandom(args []string) error {
 	adversarial := args[3] == "adversarial"
 	rng := rand.New(rand.NewSource(seed()))
 	kinds := map[string]int{}
+	// (session ids that differ in one punctuation character are different sessions; in the adversarial universe the empty key is
+	// a key too: it is what a persister saves under when the session is selected on the store handle)
 	keys := []string{"foo", "bar", "ba_r9", "xyzzy", "k1", "inky", "a0"}
-	sids := []string{"", "alice", "bob", "s1", "254700000000"}
+	sids := []string{"", "alice", "bob", "s1", "254700000000", "254700000000:7", "254700000000_7"}
 	if adversarial {
-		keys = []string{"k", "b.c", "c", "a.b", ".", "..", "x/../@y.k", "@bob.k", "Pbob.k", "k_nor", "k_eng", "@", "P", "\x00", "\xff\xfe", "k.k", "y.k", "../x", "2foo"}
-		sids = []string{"", "a", "a.b", "x/../@y", "y", "bob", "@bob", "Pbob", ".", "..", "a/b", "\x00", "a.", ".a", "x/.."}
+		keys = []string{"k", "b.c", "c", "a.b", ".", "..", "x/../@y.k", "@bob.k", "Pbob.k", "k_nor", "k_eng", "@", "P", "\x00", "\xff\xfe", "k.k", "y.k", "../x", "2foo", "", "k:1", "k_1", "k*1"}
+		sids = []string{"", "a", "a.b", "x/../@y", "y", "bob", "@bob", "Pbob", ".", "..", "a/b", "\x00", "a.", ".a", "x/..", "a:b", "a_b", "a*b", "a?b", "a|b", "a<b"}
 	}
 	langs := []string{"", "nor", "eng", "fra"}
 	nv := 0
